@@ -105,8 +105,10 @@ func (prog *Prog) buildProg(as abi.As, arg *abi.X64Argument) (inst *Prog, err er
 		default:
 			panic("unreachable")
 		}
-		prog.From = src
-		prog.To = dst
+		// CMP is the one two-operand instruction whose Plan 9 operand order equals Intel's:
+		// CMPQ a, b compares a with b
+		prog.From = dst
+		prog.To = src
 
 	case ACMOVNE: // cmovne
 		// cmovne r10d, r11d
